@@ -470,4 +470,27 @@ def r8_10(ctx):
     ctx.check(clamp(ia.get("self.end"), "min", "end", "size"), init.fq, "self.end = min(end, size)", init.where, "end <= size, so the end edge is at most 8 * width eighths", "Bar.__init__ no longer clamps end to <= size: the body can be longer than the width")
 
 
-RULES = [r8_3, r8_4, r8_5, r8_6, r8_7, r8_8, r8_9, r8_10]
+def r8_11(ctx):
+    ctx.rule("R8.11", "tree walk consults the visited node: in Tree.__rich_console__ and Tree.__rich_measure__ every read of `.expanded` / `.children` that decides whether to descend is made on the node taken from the walk (the loop / stack variable), never on `self` - a collapsed inner node hides exactly its own subtree")
+    n = 0
+    for spec in ("tree:Tree.__rich_console__", "tree:Tree.__rich_measure__"):
+        f = ctx.repo.fn(spec)
+        m = f.module
+        loops = [x for x in walk_local(f.node) if isinstance(x, (ast.While, ast.For))]
+        if not loops:
+            raise AnchorVanished(f"{spec}: walk loop not found")
+        for lp in loops:
+            for x in ast.walk(lp):
+                if isinstance(x, ast.If):
+                    reads = [a for a in ast.walk(x.test) if isinstance(a, ast.Attribute) and a.attr in ("expanded", "children")]
+                    if not any(a.attr == "expanded" for a in reads):
+                        continue
+                    n += 1
+                    recv = {norm(a.value) for a in reads}
+                    ok = len(recv) == 1 and "self" not in recv
+                    ctx.check(ok, f.fq, f"if {norm(x.test)}", f"{m.relpath}:{x.lineno}", f"descent decided by the visited node `{sorted(recv)[0] if recv else '?'}`",
+                              f"`if {norm(x.test)}` decides the descent into a node's children with the flag of {sorted(recv)}: the walk must consult the node it is visiting (a collapsed inner node still shows its children / an expanded one is hidden when the root is collapsed)")
+    ctx.floor(n, 2, "descend tests in the tree walks")
+
+
+RULES = [r8_3, r8_4, r8_5, r8_6, r8_7, r8_8, r8_9, r8_10, r8_11]
